@@ -23,6 +23,16 @@ Mini-AST (JSON; the same object is sent to the Lean driver):
          | ["delete", [target..]] | ["global", [n..]] | ["nonlocal", [n..]]        (unclaimed extension)
   assignment targets: ["name", n] | ["attr", e, a] | ["subscript", v, i] | ["tuple", [target..]]
 
+Additional kinds, produced only by `Gen(..., more=True)` (C05) and removed by `desugar()` before a program goes to the
+Lean model (which has no such constructs; each rewriting preserves the order of name loads/stores and of evaluation):
+  ["dict", [[k|null, v]..]]   rendered `{_K(k): v, **_K(w)}`   -> ["tuple", [_K(k), v, _K(w) ..]]   (a display = loads in the same scope)
+  ["await", e]                rendered `(await _K(e))`          -> _K(e)      (`_K` is awaitable and yields `_K` at once)
+  ["run", e]                  rendered `_R(e)`                  -> _K(e)      (`_R` drives a coroutine to completion where it stands)
+  funcDef[6] == true          `async def` (names af/ag; every call is wrapped in ["run", ..]) -> plain def
+  for[5] == true              `async for t in _A(it):`          -> `for t in _K(it):`   (`_A(x)` iterates exactly once, like `_K`)
+  with[3] == true             `async with _K(e) as t:`          -> `with _K(e) as t:`
+  ["importFrom", m, [["*", null]]]   star import (module level only; the analysis model has it, the run-time model does not: K(b) skipped)
+
 `["const"]` is rendered as the builtin `_K` (a universal dummy object installed in `builtins` by
 `install_builtins()`), so that every operation of a generated program succeeds on every value and the only
 exceptions are NameErrors, explicit `raise Exception` and the few typed ones listed in `run_cpython`.
@@ -96,6 +106,13 @@ def r_expr(e):
         return "[%s]" % ", ".join(r_expr(x) for x in e[1])
     if k == "subscript":
         return "%s[%s]" % (r_atom(e[1]), r_expr(e[2]))
+    if k == "dict":
+        return "{%s}" % ", ".join(("**_K(%s)" % r_expr(v)) if kk is None else ("_K(%s): %s" % (r_expr(kk), r_expr(v)))
+                                  for kk, v in e[1])
+    if k == "await":
+        return "(await _K(%s))" % r_expr(e[1])
+    if k == "run":
+        return "_R(%s)" % r_expr(e[1])
     raise ValueError("expr " + repr(e))
 
 
@@ -182,7 +199,7 @@ def r_stmt(s, ind, out):
             out.append(ind + "@" + r_expr(d))
         line = len(out) + 1
         ret = "" if s[5] is None else " -> " + r_expr(s[5])
-        out.append(ind + "def %s(%s)%s:" % (s[1], r_args(s[2], True), ret))
+        out.append(ind + "%sdef %s(%s)%s:" % ("async " if is_async(s) else "", s[1], r_args(s[2], True), ret))
         t[3] = r_body(s[3], I, out)
     elif k == "classDef":
         for d in s[4]:
@@ -192,7 +209,10 @@ def r_stmt(s, ind, out):
         out.append(ind + "class %s%s:" % (s[1], bases))
         t[3] = r_body(s[3], I, out)
     elif k == "for":
-        out.append(ind + "for %s in %s:" % (r_target(s[1]), r_expr(s[2])))
+        if is_async(s):
+            out.append(ind + "async for %s in _A(%s):" % (r_target(s[1]), r_expr(s[2])))
+        else:
+            out.append(ind + "for %s in %s:" % (r_target(s[1]), r_expr(s[2])))
         t[3] = r_body(s[3], I, out)
         if s[4]:
             out.append(ind + "else:")
@@ -211,8 +231,12 @@ def r_stmt(s, ind, out):
             out.append(ind + "else:")
             t[3] = r_body(s[3], I, out)
     elif k == "with":
-        items = ", ".join(r_expr(e) + ("" if tt is None else " as " + r_target(tt)) for e, tt in s[1])
-        out.append(ind + "with %s:" % items)
+        if is_async(s):
+            items = ", ".join("_K(%s)" % r_expr(e) + ("" if tt is None else " as " + r_target(tt)) for e, tt in s[1])
+            out.append(ind + "async with %s:" % items)
+        else:
+            items = ", ".join(r_expr(e) + ("" if tt is None else " as " + r_target(tt)) for e, tt in s[1])
+            out.append(ind + "with %s:" % items)
         t[2] = r_body(s[2], I, out)
     elif k == "try":
         out.append(ind + "try:")
@@ -249,6 +273,103 @@ def r_stmt(s, ind, out):
     else:
         raise ValueError("stmt " + repr(s))
     return ["at", line, t]
+
+
+_ASYNC_SLOT = {"funcDef": 6, "for": 5, "with": 3}
+
+
+def is_async(s):
+    i = _ASYNC_SLOT.get(s[0])
+    return i is not None and len(s) > i and bool(s[i])
+
+
+def _dx(e):
+    """desugar an expression (see the module docstring)"""
+    if e is None:
+        return None
+    k = e[0]
+    KC = lambda x: ["call", ["const"], [x]]
+    if k in ("name", "const", "bool", "str"):
+        return e
+    if k == "attr":
+        return ["attr", _dx(e[1]), e[2]]
+    if k == "call":
+        return ["call", _dx(e[1]), [_dx(x) for x in e[2]]]
+    if k == "binop":
+        return ["binop", _dx(e[1]), _dx(e[2])]
+    if k == "lambda":
+        return ["lambda", _dargs(e[1]), _dx(e[2])]
+    if k in ("listComp", "setComp", "genExp"):
+        return [k, _dx(e[1]), [[_dx(g[0]), _dx(g[1]), [_dx(c) for c in g[2]]] for g in e[2]]]
+    if k == "dictComp":
+        return [k, _dx(e[1]), _dx(e[2]), [[_dx(g[0]), _dx(g[1]), [_dx(c) for c in g[2]]] for g in e[3]]]
+    if k == "ifExp":
+        return [k, _dx(e[1]), _dx(e[2]), _dx(e[3])]
+    if k in ("tuple", "list"):
+        return [k, [_dx(x) for x in e[1]]]
+    if k == "subscript":
+        return [k, _dx(e[1]), _dx(e[2])]
+    if k == "dict":
+        out = []
+        for kk, v in e[1]:
+            out += [KC(_dx(v))] if kk is None else [KC(_dx(kk)), _dx(v)]
+        return ["tuple", out]
+    if k in ("await", "run"):
+        return KC(_dx(e[1]))
+    raise ValueError("expr " + repr(e))
+
+
+def _dargs(a):
+    a = dict(a)
+    for f in ("args", "kwonly"):
+        if a.get(f):
+            a[f] = [[n, _dx(ann)] for n, ann in a[f]]
+    if a.get("defaults"):
+        a["defaults"] = [_dx(x) for x in a["defaults"]]
+    if a.get("kwdefaults"):
+        a["kwdefaults"] = [_dx(x) for x in a["kwdefaults"]]
+    return a
+
+
+def _ds(s):
+    k = s[0]
+    B = lambda b: [_ds(x) for x in b]
+    KC = lambda x: ["call", ["const"], [x]]
+    if k == "expr":
+        return [k, _dx(s[1])]
+    if k == "assign":
+        return [k, [_dx(t) for t in s[1]], _dx(s[2])]
+    if k == "augAssign":
+        return [k, _dx(s[1]), _dx(s[2])]
+    if k == "annAssign":
+        return [k, _dx(s[1]), _dx(s[2]), _dx(s[3])]
+    if k == "funcDef":
+        return [k, s[1], _dargs(s[2]), B(s[3]), [_dx(d) for d in s[4]], _dx(s[5])]
+    if k == "classDef":
+        return [k, s[1], [_dx(b) for b in s[2]], B(s[3]), [_dx(d) for d in s[4]]]
+    if k == "for":
+        it = _dx(s[2])
+        return [k, _dx(s[1]), KC(it) if is_async(s) else it, B(s[3]), B(s[4])]
+    if k in ("while", "if"):
+        return [k, _dx(s[1]), B(s[2]), B(s[3])]
+    if k == "with":
+        a = is_async(s)
+        return [k, [[KC(_dx(e)) if a else _dx(e), _dx(t)] for e, t in s[1]], B(s[2])]
+    if k == "try":
+        return [k, B(s[1]), [[_dx(h[0]), h[1], B(h[2])] for h in s[2]], B(s[3]), B(s[4])]
+    if k == "return":
+        return [k, _dx(s[1])]
+    if k == "raise":
+        return [k, _dx(s[1])]
+    if k == "delete":
+        return [k, [_dx(t) for t in s[1]]]
+    return list(s)
+
+
+def desugar(prog):
+    """the program with the `more` constructs rewritten into constructs the Lean model has; statement lines are unchanged
+    (every statement still renders to the same number of lines)."""
+    return {"body": [_ds(s) for s in prog["body"]], "calls": [_ds(s) for s in prog.get("calls", [])]}
 
 
 def render_full(prog):
@@ -322,9 +443,56 @@ class _Meta(type):
     def __repr__(cls):
         return "_K" if cls.__dict__.get("_isK") else type.__repr__(cls)
 
+    # `await _K` gives `_K` without suspending; `async with _K` enters / leaves like `with _K`
+    def __await__(cls):
+        return _ret_K()
+
+    async def __aenter__(cls):
+        return K
+
+    async def __aexit__(cls, *a):
+        return False
+
+
+def _ret_K():
+    return K
+    yield
+
 
 K = type.__call__(_Meta, "_K", (), {"_isK": True})
 _D = _Meta
+
+
+def _R(*a, **k):
+    """`_R(coroutine)`: run the coroutine to completion right here (its exceptions propagate to the caller) and return
+    `_K`; on anything else `_R` behaves like `_K(...)`.  The Lean model sees `_K(f())` with `f` a plain function."""
+    if len(a) == 1 and not k and isinstance(a[0], types.CoroutineType):
+        co = a[0]
+        try:
+            while True:
+                co.send(None)
+        except StopIteration:
+            return K
+        finally:
+            co.close()
+    return _Meta.__call__(K, *a, **k)
+
+
+class _A(object):
+    """`async for t in _A(x)`: evaluates like `_K(x)` (generator arguments are drained) and yields `_K` exactly once."""
+
+    def __init__(self, *a, **k):
+        _Meta.__call__(K, *a, **k)
+        self._done = False
+
+    def __aiter__(self):
+        return self
+
+    async def __anext__(self):
+        if self._done:
+            raise StopAsyncIteration
+        self._done = True
+        return K
 
 
 class _M(types.ModuleType):
@@ -343,6 +511,8 @@ class _M(types.ModuleType):
 
 def install_builtins():
     builtins._K = K
+    builtins._R = _R
+    builtins._A = _A
 
 
 class _Finder(importlib.abc.MetaPathFinder, importlib.abc.Loader):
@@ -502,6 +672,17 @@ def run_once(src, marker, g):
     st = dict(mod=None, early=False)
     executed = set()
     ne, ae, local_ne = [], [], []
+    ne_at = {}           # name -> [line of the lookup that first raised, raised inside a function / lambda body]
+    in_function = set()  # ids of the code objects lexically inside a function / lambda (comprehensions in them included)
+
+    def mark(co, inside):
+        inside = inside or _is_function_like(co)
+        if inside:
+            in_function.add(id(co))
+        for c in co.co_consts:
+            if isinstance(c, types.CodeType):
+                mark(c, inside)
+    mark(code, False)
     other = [False]
 
     def local(frame, event, arg):
@@ -517,6 +698,7 @@ def run_once(src, marker, g):
                         local_ne.append(_quoted(str(ev)))
                     elif ev.name not in ne:
                         ne.append(ev.name)
+                        ne_at[ev.name] = [frame.f_lineno, id(frame.f_code) in in_function]
                 elif isinstance(ev, AttributeError) and _is_registry(getattr(ev, "obj", None)):
                     d = ev.obj.__name__ + "." + str(ev.name)
                     if d not in ae:
@@ -563,8 +745,10 @@ def run_once(src, marker, g):
                 p = offs[off].positions
                 spans.add((p.lineno, p.col_offset, p.end_lineno, p.end_col_offset))
     all_read = True
+    aug = {id(n.target) for n in ast.walk(tree) if isinstance(n, ast.AugAssign) and isinstance(n.target, ast.Name)}
     for n in ast.walk(tree):
-        if isinstance(n, ast.Name) and isinstance(n.ctx, ast.Load):
+        # (the target of `x += v` is a Store node that is read first: it counts as a read)
+        if isinstance(n, ast.Name) and (isinstance(n.ctx, ast.Load) or id(n) in aug):
             if (n.lineno, n.col_offset, n.end_lineno, n.end_col_offset) not in spans:
                 all_read = False
                 break
@@ -574,7 +758,7 @@ def run_once(src, marker, g):
         for (c, off) in executed:
             if c is co and off in ins and ins[off].opname in ("STORE_NAME", "STORE_GLOBAL", "STORE_FAST", "STORE_DEREF"):
                 stores.add((ins[off].argval, ins[off].positions.lineno, ins[off].positions.col_offset))
-    return dict(ne=ne, ae=ae, local_ne=local_ne, outcome=outcome, all_read=all_read, early=st["early"],
+    return dict(ne=ne, ne_at=ne_at, ae=ae, local_ne=local_ne, outcome=outcome, all_read=all_read, early=st["early"],
                 other_raised=other[0] or outcome.startswith("Other"),
                 stores=sorted([n, l, c] for n, l, c in stores if l is not None))
 
@@ -594,7 +778,7 @@ def binding_sites(src, name):
         if isinstance(n, ast.Name) and isinstance(n.ctx, ast.Store) and n.id == name:
             if (n.lineno, n.col_offset) not in comp_targets:
                 out.add(("name", n.lineno, n.col_offset))
-        elif isinstance(n, (ast.FunctionDef, ast.ClassDef)) and n.name == name:
+        elif isinstance(n, (ast.FunctionDef, ast.AsyncFunctionDef, ast.ClassDef)) and n.name == name:
             lo = min([n.lineno] + [d.lineno for d in n.decorator_list])
             out.add(("stmt", lo, n.lineno))
         elif isinstance(n, ast.ExceptHandler) and n.name == name:
@@ -606,11 +790,17 @@ def binding_sites(src, name):
     return sorted(out), comp_targets
 
 
-def unexecuted_binding(src, name, stores):
-    """some statement binding `name` exists whose store instruction the run never executed"""
+def unexecuted_binding(src, name, stores, at=None):
+    """some statement binding `name` exists whose store instruction the run never executed — and which the analysis, by its
+    design (it does not follow control flow), takes for a binding the failing lookup can see: with `at` = [line of the
+    lookup that raised, raised in a function body], a lookup outside function bodies only sees bindings on EARLIER lines
+    (a binding further down that was not reached because the run stopped at the NameError does not count); a lookup in a
+    function body is checked against the complete module, so every binding counts."""
     sites, comp_targets = binding_sites(src, name)
     done = [(l, c) for n, l, c in stores if n == name and (l, c) not in comp_targets]
     for kind, x, y in sites:
+        if at is not None and not at[1] and not x < at[0]:
+            continue
         if kind == "name":
             if (x, y) not in done:
                 return True
@@ -675,15 +865,19 @@ def registry_snapshot():
 # ----------------------------------------------------------------------------
 # generator
 # ----------------------------------------------------------------------------
-ARITY = {"f": 0, "g": 1, "h": 2}
+ARITY = {"f": 0, "g": 1, "h": 2, "af": 0, "ag": 1}
+# names of `async def` functions (Gen(more=True)): never read or called by generated expressions, only by the
+# generated `_R(af())` calls, so that every coroutine is run where the Lean model runs the plain function
+AFNAMES = ["af", "ag"]
 PNAMES = ["p", "q", "a", "x"]
 
 
 class Gen(object):
-    def __init__(self, rng, wild=0.04, ext=False):
+    def __init__(self, rng, wild=0.04, ext=False, more=False):
         self.rng = rng
         self.wild = wild
         self.ext = ext       # unclaimed extension statements (global/nonlocal/del)
+        self.more = more     # dict displays, async def/for/with/await, `__all__` forms, star imports, docstrings (C05 only)
         self.features = set()
         self.V, self.F, self.C, self.R, self.S, self.M, self.A = VNAMES, FNAMES, CNAMES, ROOTS, SUBS, MEMBERS + DYNAMIC[:1], ATTRS
         self.B = BUILTIN_READS
@@ -735,6 +929,12 @@ class Gen(object):
         return ["tuple", [["name", self.vname()]]]
 
     def comp_target(self):
+        if self.more and self.p(0.06):
+            # `[.. for x.u in ..]`, `[.. for x[_K] in ..]`: the target is an ordinary store expression
+            self.features.add("compTargetExpr")
+            if self.p(0.5):
+                return ["attr", ["name", self.ch(self.V + self.R)], self.ch(self.A)]
+            return ["subscript", ["name", self.vname()], self.read_name(None) if self.p(0.5) else ["const"]]
         if self.p(0.85):
             return ["name", self.vname()]
         return ["tuple", [["name", self.vname()]]]
@@ -840,7 +1040,86 @@ class Gen(object):
             e = ["call", e, [self.expr(d - 1, fctx, small=True) for _ in range(self.ch([0, 1]))]]
         return e
 
+    def dict_display(self, d, fctx):
+        """`{k: v, **w}`: keys, values and `**` operands are ordinary loads in the enclosing scope"""
+        self.features.add("dict")
+        items = []
+        for _ in range(self.ch([0, 1, 1, 2, 2, 3])):
+            if self.p(0.2):
+                items.append([None, self.expr(d - 1, fctx, small=True)])
+            else:
+                items.append([self.expr(d - 1, fctx, small=True), self.expr(d - 1, fctx, small=True)])
+        e = ["dict", items]
+        if self.p(0.25):
+            e = ["attr", e, self.ch(self.A)]        # `{**a}.u`: attribute of a non-name
+            if self.p(0.5):
+                e = ["call", e, []]
+        return e
+
+    def docstring(self):
+        """a string statement holding doctest examples and `{name}` references (read by scan_for_import_issues with
+        parse_docstrings=True only; at run time it is a constant)"""
+        self.features.add("docstring")
+        n = lambda: self.ch(self.V + self.R + self.R)
+        parts = ["Summary."]
+        for _ in range(self.ch([1, 1, 2, 3])):
+            r = self.rng.random()
+            if r < 0.25:
+                parts.append("See {%s} and `%s`%s." % (n(), n(), self.ch(["", "", " {class}", " {%s.%s}" % (n(), n())])))
+            elif r < 0.5:
+                parts.append(">>> %s.%s(%s)\n_K" % (n(), self.ch(self.A + self.M), n()))
+            elif r < 0.65:
+                parts.append(">>> import %s\n>>> %s.%s + %s" % (self.ch(self.R), self.ch(self.R), self.ch(self.M), n()))
+            elif r < 0.8:
+                parts.append(">>> for i in %s:\n...     print(i, %s)\n" % (n(), n()))
+            elif r < 0.9:
+                parts.append(">>> %s = %s\n>>> %s\n" % (n(), n(), n()))
+            else:
+                parts.append(">>> %s(\n" % n())       # not parseable: ignored with a warning
+        return ["expr", ["str", "\n\n".join(parts) + "\n"]]
+
+    def all_stmt(self, fctx):
+        """`__all__ = …` in its forms: list / tuple of strings, with a non-string element, a non-display value"""
+        self.features.add("all")
+        names = [self.ch(self.V + self.R + self.F + self.C) for _ in range(self.ch([1, 1, 2, 3]))]
+        strs = [["str", x] for x in names]
+        r = self.rng.random()
+        if r < 0.45:
+            v = ["list", strs]
+        elif r < 0.65:
+            v = ["tuple", strs]
+        elif r < 0.8:
+            v = ["list", strs + [self.read_name(fctx)]]
+        elif r < 0.9:
+            v = ["binop", ["list", strs], ["list", [["str", self.vname()]]]]
+        else:
+            v = self.read_name(fctx)
+        if self.p(0.1):
+            return ["augAssign", ["name", "__all__"], v]
+        if self.p(0.1):
+            return ["assign", [["name", "__all__"], ["name", self.vname()]], v]
+        return ["assign", [["name", "__all__"]], v]
+
+    def async_stmt(self, d, fctx, kind):
+        """a statement that only an `async def` body can hold"""
+        r = self.rng.random()
+        if r < 0.4:
+            self.features.add("asyncFor")
+            return ["for", self.target() if self.p(0.25) else ["name", self.vname()], self.iterable(2, fctx),
+                    self.body(d - 1, fctx, kind), self.body(d - 1, fctx, kind, 1) if self.p(0.15) else [], True]
+        if r < 0.65:
+            self.features.add("asyncWith")
+            items = [[self.vexpr(fctx), self.target() if self.p(0.7) else None] for _ in range(self.ch([1, 1, 2]))]
+            return ["with", items, self.body(d - 1, fctx, kind), True]
+        self.features.add("await")
+        aw = ["await", self.expr(1, fctx, small=True)]
+        if r < 0.85:
+            return ["assign", [self.target()], aw]
+        return ["expr", aw]
+
     def expr(self, d, fctx, small=False):
+        if self.more and d > 0 and self.p(0.05):
+            return self.dict_display(d, fctx)
         r = self.rng.random()
         if d <= 0 or (small and r < 0.6):
             r2 = self.rng.random()
@@ -885,7 +1164,10 @@ class Gen(object):
         return ["subscript", self.read_name(fctx), self.expr(d - 1, fctx, small=True)]
 
     # -- statements -----------------------------------------------------------
-    def imp(self):
+    def imp(self, kind=None):
+        if self.more and kind == "module" and self.p(0.06):
+            self.features.add("star")
+            return ["importFrom", self.ch(self.R) + ("." + self.ch(self.S) if self.p(0.3) else ""), [["*", None]]]
         r = self.rng.random()
         root = self.ch(self.R)
         if r < 0.3:
@@ -901,8 +1183,18 @@ class Gen(object):
         n = n if n is not None else self.ch([1, 1, 2, 2, 3])
         return [self.stmt(d, fctx, kind) for _ in range(n)]
 
+    def with_doc(self, body):
+        if self.more and self.p(0.08):
+            return [self.docstring()] + body
+        return body
+
     def stmt(self, d, fctx, kind):
-        """kind: 'module' | 'func' | 'class'"""
+        """kind: 'module' | 'func' | 'afunc' (directly inside an `async def`) | 'class'"""
+        if self.more:
+            if kind == "afunc" and self.p(0.3):
+                return self.async_stmt(max(d, 1), fctx, kind)
+            if self.p(0.025):
+                return self.all_stmt(fctx)
         r = self.rng.random()
         if d <= 0:
             r = r * 0.52
@@ -922,7 +1214,7 @@ class Gen(object):
                 t = ["name", self.vname()]
             return ["annAssign", t, self.expr(1, fctx, small=True), self.expr(1, fctx, small=True) if self.p(0.75) else None]
         if r < 0.52:
-            return self.imp()
+            return self.imp(kind)
         if r < 0.64:
             return self.funcdef(d, fctx, kind)
         if r < 0.71:
@@ -955,9 +1247,19 @@ class Gen(object):
                     self.body(d - 1, fctx, kind, 1) if (not hs or self.p(0.2)) else []]
         self.features.add("ext")
         r2 = self.rng.random()
+        if self.more and r2 < 0.3:
+            # `del a.b`, `del a.b.c`, `del a[i]`, `del f().u`: loads of everything but the last component
+            r3 = self.rng.random()
+            if r3 < 0.4:
+                return ["delete", [self.chain(fctx)]]
+            if r3 < 0.7:
+                return ["delete", [["subscript", self.read_name(fctx), self.expr(1, fctx, small=True)]]]
+            if r3 < 0.85:
+                return ["delete", [["attr", ["call", self.callee(fctx), []], self.ch(self.A)]]]
+            return ["delete", [["name", self.vname()], self.chain(fctx)]]
         if r2 < 0.5:
             return ["delete", [["name", self.vname()]]]
-        if kind == "func" and r2 < 0.8:
+        if kind in ("func", "afunc") and r2 < 0.8:
             return ["global", [self.vname()]]
         return ["delete", [["name", self.vname()]]]
 
@@ -968,13 +1270,19 @@ class Gen(object):
             return ["assign", [["name", self.vname()]], self.expr(2, fctx)]
         idx = self.rng.randrange(lo, len(self.F))
         name = self.F[idx]
+        is_async = self.more and self.p(0.12)
+        if is_async:
+            self.features.add("asyncDef")
+            name = self.ch(AFNAMES)
         a = self.args(2, fctx, name=name)
         decos = [self.ch([["const"], ["name", self.vname()], self.chain(fctx)])] if self.p(0.12) else []
         ret = self.expr(1, fctx, small=True) if self.p(0.12) else None
-        body = self.body(d - 1, idx, "func")
+        body = self.with_doc(self.body(d - 1, idx, "afunc" if is_async else "func"))
         body = self.add_calls(body, idx)
         if self.p(0.5):
             body.append(["return", self.expr(2, idx)])
+        if is_async:
+            return ["funcDef", name, a, body, decos, ret, True]
         return ["funcDef", name, a, body, decos, ret]
 
     def classdef(self, d, fctx, kind):
@@ -984,7 +1292,7 @@ class Gen(object):
         if self.p(0.2):
             bases = [self.ch([["name", self.vname()], self.chain(fctx), ["name", name]])]
         decos = [self.ch([["const"], ["name", self.vname()], ["name", name]])] if self.p(0.1) else []
-        body = self.body(d - 1, fctx, "class")
+        body = self.with_doc(self.body(d - 1, fctx, "class"))
         return ["classDef", name, bases, body, decos]
 
     def call_stmts(self, body, prefix=None):
@@ -994,7 +1302,8 @@ class Gen(object):
             if s[0] == "funcDef" and s[1] not in seen and not (s[4] and s[4][0][0] != "const" and False):
                 seen.add(s[1])
                 fn = ["name", s[1]] if prefix is None else ["attr", prefix, s[1]]
-                out.append(["expr", ["call", fn, [["const"] for _ in range(ARITY.get(s[1], 0))]]])
+                call = ["call", fn, [["const"] for _ in range(ARITY.get(s[1], 0))]]
+                out.append(["expr", ["run", call] if is_async(s) else call])
             elif s[0] == "classDef" and s[1] not in seen:
                 seen.add(s[1])
                 cn = ["name", s[1]] if prefix is None else ["attr", prefix, s[1]]
@@ -1007,7 +1316,19 @@ class Gen(object):
 
     def program(self, nstmts=None, depth=3):
         n = nstmts if nstmts is not None else self.ch([1, 2, 3, 3, 4, 5, 6])
-        body = [self.stmt(depth - 1, None, "module") for _ in range(n)]
+        body = self.with_doc([self.stmt(depth - 1, None, "module") for _ in range(n)])
+        if self.more and self.p(0.15):
+            # a name read by an annotation / default / decorator / base of some def or class gets its (only) module-level
+            # binding further down: those are evaluated when the statement runs, not when the function is called
+            heads = []
+            for st in walk_stmts(body):
+                if st[0] in ("funcDef", "classDef"):
+                    for e in stmt_exprs(st)[0]:
+                        heads += sorted(x for x in names_read(e) if x in self.V + self.R)
+            if heads:
+                self.features.add("lateBinding")
+                n = self.ch(heads)
+                body.append(["import", [["pa", n]]] if self.p(0.3) else ["assign", [["name", n]], ["const"]])
         return {"body": body, "calls": self.call_stmts(body)}
 
 
@@ -1049,6 +1370,139 @@ def gen_nsspec(rng):
 
 
 # ----------------------------------------------------------------------------
+# raw source snippets (no mini-AST, no Lean model: judged by the oracle only)
+# ----------------------------------------------------------------------------
+# kind -> [(body, calls)]; holes: {a} {b} {c} variables, {p} {q} parameters, {r} root package, {m} member, {s} sub-package
+RAW_TEMPLATES = {
+    # type comments: inside the claimed domain (the statements are ordinary); a name that occurs only in a type comment
+    # is never looked up by the run, the analysis reports it on purpose (tidy-imports must keep such imports)
+    "typecomment": [
+        ("def f({p}, {q}):\n    # type: ({a}, {r}.{m}) -> {b}\n    return ({p}, {c})\n", "f(_K, _K)\n"),
+        ("def f(\n    {p},  # type: {a}\n    {q}=_K,  # type: {r}.{s}.T\n):\n    return ({q}, {b})\n", "f(_K)\n"),
+        ("for {a} in [_K]:  # type: {b}\n    {c}\n{a}\n", ""),
+        ("{a} = _K  # type: {b}\n({a}, {c})\n", ""),
+        ("with _K as {a}:  # type: {b}\n    {c}\n", ""),
+        ("def f({p}):\n    # type: see below\n    return ({a}, {p})\n{b} = _K\n", "f(_K)\n"),
+        ("async def af({p}):\n    # type: ({a}) -> {b}\n    async for {c} in _A({p}):  # type: {r}.{m}\n        {c}\n    return {b}\n",
+         "_R(af(_K))\n"),
+        ("{a}  # type: {b}\n{c}\n", ""),                      # not a type-comment position: parsed without type comments
+        ("class C:\n    def f(self, {p}):\n        # type: ({a}) -> C\n        return {b}\n", "C().f(_K)\n"),
+        ("import {r}\ndef f({p}):\n    # type: ({r}.{m}) -> {r}.{s}.T\n    return {p}\n", "f({a})\n"),
+    ],
+    # unclaimed extensions: executed so that a crash is seen; names bound by the construct are not judged
+    "match": [
+        ("match {a}:\n    case {b}:\n        {b}\n{c}\n", ""),
+        ("match [_K, _K]:\n    case [{a}, *{b}]:\n        ({a}, {b})\n    case _:\n        {c}\n{c}\n", ""),
+        ("match {{'k': _K}}:\n    case {{'k': {a}, **{b}}}:\n        ({a}, {b}, {c})\n", ""),
+        ("match _K:\n    case {r}.{m} as {a}:\n        {a}\n    case Exception():\n        {c}\n    case {b}:\n        ({b}, {c})\n", ""),
+        ("def f({p}):\n    match {p}:\n        case ({a}, {b}) | [{a}, {b}, _]:\n            return {a}\n        case str() | None:\n"
+         "            return {c}\n    return {b}\n", "f(_K)\n"),
+        ("match ({a}, {b}):\n    case ({r}.{m}, {c}) if {c}:\n        pass\n    case (_, *_):\n        {c}\n", ""),
+    ],
+    "walrus": [
+        ("({a} := {b})\n{a}\n", ""),
+        ("[({a} := {b}) for {b} in [_K]]\n({a}, {b})\n", ""),
+        ("def f():\n    if ({a} := {c}):\n        return {a}\n    return [{b} for {b} in [_K] if ({c} := {b})]\n", "f()\n"),
+        ("{a} = [{b} for {b} in [_K] if ({c} := {b})]\n{c}\n", ""),
+        ("(lambda: ({a} := _K))()\n{a}\n", ""),
+        ("class C:\n    {a} = ({b} := _K)\n{b}\n", ""),
+        ("while ({a} := {b}):\n    break\n({a}, {c})\n", ""),
+    ],
+    "typealias": [
+        ("type A = {b}\n(A, {c})\n", ""),
+        ("type A[T: {b}] = list[T]\n{c}\n", ""),
+        ("def f():\n    type A[T, *Ts, **P] = {r}.{m}\n    return (A, {c})\n", "f()\n"),
+    ],
+    "pep695": [
+        ("def f[T: {a}, *Ts, **P]({p}: T = {b}) -> T:\n    return ({c}, {p})\n", "f()\n"),
+        ("class C[T: ({a}, {b})](_K):\n    {c}: T = _K\n{c}\n", ""),
+        ("class C[T]:\n    def m[U](self, {p}: T) -> U:\n        return (T, U, {a})\n", "C().m(_K)\n"),
+        ("async def af[T]({p}: T):\n    return {b}\n", "_R(af(_K))\n"),
+    ],
+}
+RAW_EXT_KINDS = ("match", "walrus", "typealias", "pep695")
+
+
+def raw_snippets(rng, per_kind=2):
+    """-> [(kind, source, marker_line)] with the holes filled at random"""
+    out = []
+    for kind, tpls in RAW_TEMPLATES.items():
+        for body, calls in (tpls if per_kind is None else [tpls[rng.randrange(len(tpls))] for _ in range(per_kind)]):
+            vs = rng.sample(VNAMES, 2) + [rng.choice(VNAMES)]
+            ps = rng.sample(PNAMES, 2)
+            f = dict(a=vs[0], b=vs[1], c=vs[2], p=ps[0], q=ps[1], r=rng.choice(ROOTS), m=rng.choice(MEMBERS + DYNAMIC[:1]),
+                     s=rng.choice(SUBS))
+            b = body.format(**f)
+            try:
+                compile(b + calls.format(**f), "<raw>", "exec", dont_inherit=True)
+            except SyntaxError:        # e.g. a capture that is also the comprehension variable
+                continue
+            out.append((kind, b + calls.format(**f), b.count("\n") + 1))
+    return out
+
+
+def construct_bound_names(src):
+    """names bound by walrus targets, match captures, PEP 695 type parameters and `type` statements (unclaimed
+    extensions: not judged), and the names read only where nothing is evaluated by the run (type-parameter bounds,
+    alias values: lazily evaluated)"""
+    tree = ast.parse(src)
+    bound, lazy = set(), set()
+    for n in ast.walk(tree):
+        if isinstance(n, ast.NamedExpr) and isinstance(n.target, ast.Name):
+            bound.add(n.target.id)
+        elif isinstance(n, (ast.MatchAs, ast.MatchStar)) and n.name:
+            bound.add(n.name)
+        elif isinstance(n, ast.MatchMapping) and n.rest:
+            bound.add(n.rest)
+        elif isinstance(n, (ast.TypeVar, ast.TypeVarTuple, ast.ParamSpec)):
+            bound.add(n.name)
+            b = getattr(n, "bound", None)
+            if b is not None:
+                lazy |= {x.id for x in ast.walk(b) if isinstance(x, ast.Name)}
+        elif isinstance(n, ast.TypeAlias):
+            bound.add(n.name.id)
+            lazy |= {x.id for x in ast.walk(n.value) if isinstance(x, ast.Name)}
+    return bound, lazy
+
+
+def type_comment_names(src):
+    """heads of the dotted names occurring in `# type:` comments of the source"""
+    import re
+    out = set()
+    for m in re.finditer(r"#\s*type:(.*)$", src, re.M):
+        out |= set(re.findall(r"(?<![\w.])([A-Za-z_]\w*)", m.group(1)))
+    return out
+
+
+def docstring_refs(src):
+    """(identifier tokens of all string literals, names loaded by doctest examples of string literals, `{name}`
+    references of string literals) — computed with the stdlib `doctest` parser, independently of pyflyby"""
+    import doctest
+    import re
+    tree = ast.parse(src)
+    words, loads, braces = set(), set(), set()
+    for n in ast.walk(tree):
+        if isinstance(n, ast.Constant) and isinstance(n.value, str):
+            words |= set(re.findall(r"[A-Za-z_]\w*", n.value))
+            braces |= set(re.findall(r"\{([A-Za-z_]\w*)\}", n.value))
+            try:
+                exs = doctest.DocTestParser().get_examples(n.value)
+            except ValueError:
+                continue
+            for ex in exs:
+                try:
+                    t = ast.parse(ex.source)
+                except SyntaxError:
+                    continue
+                stored = {x.id for x in ast.walk(t) if isinstance(x, ast.Name) and isinstance(x.ctx, ast.Store)}
+                imported = {(a.asname or a.name.split(".")[0]) for x in ast.walk(t)
+                            if isinstance(x, (ast.Import, ast.ImportFrom)) for a in x.names}
+                loads |= {x.id for x in ast.walk(t) if isinstance(x, ast.Name) and isinstance(x.ctx, ast.Load)} \
+                    - stored - imported
+    return words, loads, braces
+
+
+# ----------------------------------------------------------------------------
 # syntactic facts about a mini-AST program (used by the known-finding family predicates)
 # ----------------------------------------------------------------------------
 def sub_exprs(e):
@@ -1075,6 +1529,10 @@ def sub_exprs(e):
         return list(e[1])
     if k == "subscript":
         return [e[1], e[2]]
+    if k == "dict":
+        return [x for kk, v in e[1] for x in ([v] if kk is None else [kk, v])]
+    if k in ("await", "run"):
+        return [e[1]]
     return []
 
 
